@@ -14,6 +14,8 @@ mod c08;
 mod c09;
 mod c10;
 mod c11;
+mod c16;
+mod c18;
 mod bessel;
 mod common;
 mod engine;
@@ -86,6 +88,8 @@ fn main() {
         "C10" => run::<c10::C10>(&args),
         "C11" => run::<c11::C11>(&args),
         "C14" => run::<bessel::C14>(&args),
+        "C16" => run::<c16::C16>(&args),
+        "C18" => run::<c18::C18>(&args),
         "C15" => run::<bessel::C15>(&args),
         other => {
             eprintln!("unknown property {other}");
